@@ -6,7 +6,11 @@
 (*  - exhaustively over every triple of N x N matrices, vector and scalar  *)
 (*    of the field Z_P for small P (Law_Mat_2x2_P2/P3 ...), and            *)
 (*  - on K random operand tuples over Z_46337 for the sizes whose operand  *)
-(*    space is too large to enumerate (MODE = "random").                   *)
+(*    space is too large to enumerate (MODE = "random"), and               *)
+(*  - as POLYNOMIAL IDENTITIES on free symbols (MODE = "sym", P = PPoly):  *)
+(*    every entry of A, B, C, v and s is a distinct variable of the free   *)
+(*    commutative ring, so a law that holds holds for every input in every *)
+(*    commutative ring (Law_Mat_*_S.cfg).                                  *)
 (* C01: identity neutral, associativity, (AB)^T = B^T A^T, v*M = M^T*v,    *)
 (*      bilinearity, compatibility with scalars, layout independence,      *)
 (*      the 2x2 adjugate identities behind the Vec4 helpers.               *)
@@ -22,10 +26,16 @@ Ms == [1 .. N -> [1 .. N -> FSet]]
 Vs == [1 .. N -> FSet]
 RandV == [i \in 1 .. N |-> RandomElement(FSet)]
 RandM == [i \in 1 .. N |-> RandV]
+\* a matrix of distinct variables (numbered after `off`); the scalar and the vector get the smallest primes
+\* because they reach the highest degrees (VekPoly codes a monomial as a product of primes, 32-bit)
+SymM(off) == [i \in 1 .. N |-> [j \in 1 .. N |-> PVar(off + (i - 1) * N + j)]]
 Init == IF MODE = "all"
         THEN A \in Ms /\ B \in Ms /\ C \in Ms /\ v \in Vs /\ s \in FSet /\ k = 0
         ELSE IF MODE = "pairs"
         THEN A \in Ms /\ B \in Ms /\ C = Transp(A) /\ v \in Vs /\ s \in FSet /\ k = 0
+        ELSE IF MODE = "sym"
+        THEN /\ k = 0 /\ s = PVar(1) /\ v = [i \in 1 .. N |-> PVar(1 + i)]
+             /\ A = SymM(1 + N) /\ B = SymM(1 + N + N * N) /\ C = SymM(1 + N + 2 * N * N)
         ELSE k \in 1 .. K /\ A = RandM /\ B = RandM /\ C = RandM /\ v = RandV /\ s = RandomElement(FSet)
 Next == UNCHANGED <<A, B, C, v, s, k>>
 
@@ -64,6 +74,16 @@ InverseLaws == Det(A) # F0 => /\ MatMul(A, Inv(A)) = I /\ MatMul(Inv(A), A) = I
                               /\ Det(Inv(A)) = FInv(Det(A))
 Laws == IdentityNeutral /\ Associative /\ TransposeOfProduct /\ RowVecIsTranspose /\ ActionComposes
         /\ Bilinear /\ ScalarCompat /\ LayoutUnobservable /\ Adj2Laws /\ DetLaws /\ AdjLaws /\ InverseLaws
+\* the laws that are identities of the free commutative ring (no division, no case distinction); the product
+\* rule of the determinant has degree 2N in 2N^2 variables and fits TLC's integers for N = 2 only
+DetSym == /\ Det(Transp(A)) = Det(A) /\ Det(I) = F1
+          /\ Det(MatScale(A, s)) = FMul(FPow(s, N), Det(A))
+          /\ (N = 2 => Det(MatMul(A, B)) = FMul(Det(A), Det(B)))
+\* sanity of the symbolic lane itself: on free symbols the product is visibly NOT commutative and a matrix
+\* differs from its transpose, so "=" between polynomial matrices is not vacuously true
+SymDistinguishes == MatMul(A, B) # MatMul(B, A) /\ Transp(A) # A /\ Det(A) # Det(B) /\ FAdd(A[1][1], A[1][1]) # A[1][1]
+SymLaws == SymDistinguishes /\ IdentityNeutral /\ Associative /\ TransposeOfProduct /\ RowVecIsTranspose /\ ActionComposes
+           /\ Bilinear /\ ScalarCompat /\ LayoutUnobservable /\ Adj2Laws /\ DetSym /\ AdjLaws
 \* vacuity guard: the antecedent of InverseLaws must hold somewhere (checked by the driver
 \* through the evaluation count of this state function)
 Invertible == Det(A) # F0
